@@ -3,9 +3,13 @@
 
 package gocql
 
-import "context"
+import (
+	"context"
+	"time"
+)
 
 func verifConn(point string, c *Conn, call *callReq, a, b int)             {}
 func verifConnErr(point string, c *Conn, call *callReq, a int, err error)  {}
 func verifCtx(ctx context.Context, c *Conn, call *callReq)                 {}
 func verifEvent(point string, obj interface{}, s string, a int, err error) {}
+func verifDur(point string, c *Conn, d time.Duration) time.Duration        { return d }
